@@ -173,6 +173,48 @@ RefCues(toks, p) ==
 RefRead(D) == LET p == NextTiming(D.toks, 1) IN IF p = 0 THEN <<>> ELSE RefCues(D.toks, p)
 
 ---------------------------------------------------------------------------
+(* Implementation layer: transcription of srt.go:ReadFromSRT, one step per physical line (= per scanner.Scan()).
+   State: items (cues appended so far, the last one still growing), pend (the Lines of the item variable `s`:
+   before the first timing line a detached item, afterwards the last appended cue), sa (running style, reset at
+   every timing line), n (lines consumed).  A pending line is [blank |-> TRUE] (the reader stores an empty text
+   item for a blank line) or [blank |-> FALSE, runs, num] (num: the line is a cue number / junk candidate).
+   At a timing line the last pending line, unless blank, is taken away as the cue's index; then - and at the end
+   of the input - the pending lines are cut at their first blank line (removeTrailingEmptyLinesSRT).
+   Obs(st) is what the hook at the top of the loop reports: <<lineNum, len(o.Items), len(s.Lines)>>. *)
+ImplInit == [items |-> <<>>, pend |-> <<>>, sa |-> Plain, n |-> 0]
+
+CutAtBlank(pend) ==
+  LET bl == {i \in DOMAIN pend : pend[i].blank} IN
+  IF bl = {} THEN pend ELSE SubSeq(pend, 1, (CHOOSE i \in bl : \A j \in bl : i <= j) - 1)
+LinesOf(pend) == [i \in DOMAIN CutAtBlank(pend) |-> CutAtBlank(pend)[i].runs]
+\* the growing cue's lines live in pend; Settle writes them back
+Settle(st) == IF st.items = <<>> THEN st.items
+              ELSE [st.items EXCEPT ![Len(st.items)].lines = LinesOf(st.pend)]
+
+ImplLine(st, tok) ==
+  LET st1 == [st EXCEPT !.n = @ + 1] IN
+  CASE tok.k = "timing" ->
+         LET pend1 == IF st.pend # <<>> /\ ~st.pend[Len(st.pend)].blank THEN SubSeq(st.pend, 1, Len(st.pend) - 1) ELSE st.pend
+             done == Settle([st EXCEPT !.pend = pend1])
+         IN  [st1 EXCEPT !.items = Append(done, [s |-> tok.s, e |-> tok.e, lines |-> <<>>]), !.pend = <<>>, !.sa = Plain]
+    [] tok.k = "blank" -> [st1 EXCEPT !.pend = Append(@, [blank |-> TRUE, runs |-> <<>>])]
+    [] tok.k = "text" ->
+         LET r == ItemsToRuns(tok.its, st.sa) IN
+         [st1 EXCEPT !.pend = IF r[1] = <<>> THEN @ ELSE Append(@, [blank |-> FALSE, runs |-> r[1]]), !.sa = r[2]]
+    [] tok.k \in {"idx", "junk"} ->       \* a number / junk line is text to the reader until a timing line follows
+         [st1 EXCEPT !.pend = Append(@, [blank |-> FALSE, runs |-> <<Run(0 - 1, st.sa.b, st.sa.i, st.sa.u, st.sa.c)>>])]
+
+Obs(st) == <<st.n + 1, Len(st.items), Len(st.pend)>>
+
+RECURSIVE ImplFold(_, _)
+ImplFold(st, toks) == IF toks = <<>> THEN st ELSE ImplFold(ImplLine(st, Head(toks)), Tail(toks))
+RECURSIVE ImplObs(_, _)
+ImplObs(st, toks) == IF toks = <<>> THEN <<>> ELSE <<Obs(st)>> \o ImplObs(ImplLine(st, Head(toks)), Tail(toks))
+
+ImplRead(D) == Settle(ImplFold(ImplInit, D.toks))
+ImplHooks(D) == ImplObs(ImplInit, D.toks)
+
+---------------------------------------------------------------------------
 (* Writer contract: the document denotes G (through RefRead) and cues are numbered 1..n *)
 Numbered(toks) ==
   LET idxs == SelectSeq(toks, LAMBDA t : t.k \in {"idx", "junk"}) IN
